@@ -3,23 +3,27 @@ From Bfe Require Import lib.Val model.IpDict.
 Import ListNotations.
 Open Scope Z_scope.
 
-(* input : [ [ [xS xE] ... ]  [ xSingle ... ]  [ xProbe ... ] ]   (addresses: 4- or 16-byte strings, other
-            lengths are invalid net.IPs)
-   output: [ pairErrs singleErrs s1 s2 final results ]
+(* input : [ [ [xS xE] ... ]  [ xSingle ... ]  [ xProbe ... ]  maxSingle  noUpdate ]
+            (addresses: 4- or 16-byte strings, other lengths are invalid net.IPs; maxSingle = first argument of
+             NewIPItems; noUpdate <> 0: IPTable.Update is not called, the table stays empty)
+   output: [ pairErrs singleErrs s1 s2 final results length ]
             pairErrs/singleErrs : 0/1 per InsertPair / InsertSingle call (1 = error)
             s1    : the pair array after the first sort.Sort     (entries [xStart16 xEnd16])
-            s2    : the pair array after mergeItems + second sort.Sort
+            s2    : the pair array after mergeItems (merged items first, zero-address lines last)
             final : the pair array after IPItems.Sort() (real method)
-            results : IPTable.Search(probe) 0/1 per probe *)
+            results : IPTable.Search(probe) 0/1 per probe
+            length  : IPItems.Length() after Sort *)
 
 Definition dec_pair (v : val) : option (list Z * list Z) :=
   match v with VL [VB s; VB e] => Some (s, e) | _ => None end.
-Record input := { in_pairs : list (list Z * list Z); in_singles : list (list Z); in_probes : list (list Z) }.
+Record input := { in_pairs : list (list Z * list Z); in_singles : list (list Z); in_probes : list (list Z);
+                  in_maxsingle : Z; in_noupd : bool }.
 Definition dec_input (v : val) : option input :=
   match v with
-  | VL [VL ps; ss; qs] =>
+  | VL [VL ps; ss; qs; VZ ms; VZ nu] =>
     match all_some (map dec_pair ps), as_LB ss, as_LB qs with
-    | Some p, Some s, Some q => Some {| in_pairs := p; in_singles := s; in_probes := q |}
+    | Some p, Some s, Some q =>
+      Some {| in_pairs := p; in_singles := s; in_probes := q; in_maxsingle := ms; in_noupd := negb (nu =? 0) |}
     | _, _, _ => None
     end
   | _ => None
@@ -30,9 +34,22 @@ Fixpoint keep_some {A} (l : list (option A)) : list A :=
 Definition err_flag {A} (o : option A) : val := match o with Some _ => VZ 0 | None => VZ 1 end.
 
 Definition loaded_items (i : input) : list rng := keep_some (map (fun p => insert_pair (fst p) (snd p)) (in_pairs i)).
-Definition loaded_singles (i : input) : list Z := keep_some (map to16 (in_singles i)).
+(* InsertSingle: To16() == nil -> error; else hash_set.Add on a set of capacity maxSingle+1: Full() is tested
+   first (error even for a member), a member is not added twice.  State: members, error flags (reversed) *)
+Definition insert_single (cp : Z) (st : list Z * list val) (s : list Z) : list Z * list val :=
+  let '(set, errs) := st in
+  match to16 s with
+  | None => (set, VZ 1 :: errs)
+  | Some a =>
+    if cp <=? Z.of_nat (length set) then (set, VZ 1 :: errs)
+    else if existsb (Z.eqb a) set then (set, VZ 0 :: errs)
+    else (a :: set, VZ 0 :: errs)
+  end.
+Definition singles_run (i : input) : list Z * list val :=
+  fold_left (insert_single (in_maxsingle i + 1)) (in_singles i) ([], []).
+Definition loaded_singles (i : input) : list Z := fst (singles_run i).
 Definition pair_errs (i : input) : val := VL (map (fun p => err_flag (insert_pair (fst p) (snd p))) (in_pairs i)).
-Definition single_errs (i : input) : val := VL (map (fun s => err_flag (to16 s)) (in_singles i)).
+Definition single_errs (i : input) : val := VL (rev (snd (singles_run i))).
 
 (* 16-byte big-endian form of an address (decimal text of 128-bit numbers is slow on the wire) *)
 Fixpoint bytes_be (n : nat) (z : Z) (acc : list Z) : list Z :=
@@ -61,30 +78,36 @@ Definition run_C19 (v : val) : val :=
     let its := loaded_items i in
     let s1 := go_insertion_sort its in
     let '(m, cnt) := merge_items s1 in
-    let s2 := go_insertion_sort m in
-    let fin := final_of (length its) cnt s2 in
+    let fin := final_of (length its) cnt m in
     let sg := loaded_singles i in
-    VL [pair_errs i; single_errs i; enc_rngs s1; enc_rngs s2; enc_rngs fin;
-        VL (map (fun q => vbool (probe_result sg fin q)) (in_probes i))]
+    let tsg := if in_noupd i then [] else sg in
+    let tfin := if in_noupd i then [] else fin in
+    VL [pair_errs i; single_errs i; enc_rngs s1; enc_rngs m; enc_rngs fin;
+        VL (map (fun q => vbool (probe_result tsg tfin q)) (in_probes i));
+        VZ (Z.of_nat (length fin) + Z.of_nat (length sg))]
   end.
 
-(* Trace validation: sort.Sort is only constrained to return a sorted permutation, so the two sorted arrays
-   reported by the implementation are validated (not recomputed); everything else is recomputed from them
-   by the model and compared exactly. *)
+(* Trace validation: sort.Sort is only constrained to return a sorted permutation, so the sorted array
+   reported by the implementation is validated (not recomputed); everything else (the array after
+   mergeItems, the resliced array, every Search answer) is recomputed from it by the model and compared exactly. *)
 Definition agree_C19 (v o : val) : bool :=
   match dec_input v, o with
-  | Some i, VL [pe; se; vs1; vs2; vfin; vres] =>
-    match dec_rngs vs1, dec_rngs vs2 with
-    | Some s1, Some s2 =>
+  | Some i, VL [pe; se; vs1; vm; vfin; vres; vlen] =>
+    match dec_rngs vs1 with
+    | Some s1 =>
       let its := loaded_items i in
       let '(m, cnt) := merge_items s1 in
-      let fin := final_of (length its) cnt s2 in
+      let fin := final_of (length its) cnt m in
       let sg := loaded_singles i in
+      let tsg := if in_noupd i then [] else sg in
+      let tfin := if in_noupd i then [] else fin in
       val_eqb pe (pair_errs i) && val_eqb se (single_errs i)
-      && sorter_outcome_ok its s1 && sorter_outcome_ok m s2
+      && sorter_outcome_ok its s1
+      && val_eqb vm (enc_rngs m)
       && val_eqb vfin (enc_rngs fin)
-      && val_eqb vres (VL (map (fun q => vbool (probe_result sg fin q)) (in_probes i)))
-    | _, _ => false
+      && val_eqb vres (VL (map (fun q => vbool (probe_result tsg tfin q)) (in_probes i)))
+      && val_eqb vlen (VZ (Z.of_nat (length fin) + Z.of_nat (length sg)))
+    | None => false
     end
   | None, _ => val_eqb o (VErr 0)
   | _, _ => false
@@ -96,18 +119,13 @@ Definition spec_result (sg : list Z) (its : list rng) (q : list Z) : bool :=
   match to16 q with Some ip => spec sg its ip | None => false end.
 Definition prop_C19 (v o : val) : bool :=
   match dec_input v, o with
-  | Some i, VL [_; _; _; _; _; vres] =>
-    let sg := loaded_singles i in
-    let its := loaded_items i in
+  | Some i, VL [_; _; _; _; _; vres; _] =>
+    (* a table that was never updated contains nothing *)
+    let sg := if in_noupd i then [] else loaded_singles i in
+    let its := if in_noupd i then [] else loaded_items i in
     val_eqb vres (VL (map (fun q => vbool (spec_result sg its q)) (in_probes i)))
   | _, _ => false
   end.
 
-(* known-finding classes: 1 = two or more ranges loaded and one starts at :: ;
-                          2 = two or more ranges loaded and one is 0.0.0.0-0.0.0.0 *)
-Definition kf_items (its : list rng) : Z :=
-  if (length its <=? 1)%nat then 0
-  else if negb (no_v6zero_start its) then 1
-  else if negb (no_v4zero_end its) then 2 else 0.
-Definition kf_C19 (v : val) : Z :=
-  match dec_input v with Some i => kf_items (loaded_items i) | None => 0 end.
+(* no known-finding class is left after the repair of mergeItems/Sort *)
+Definition kf_C19 (v : val) : Z := 0.
